@@ -403,7 +403,8 @@ class Fuzz:
         rp = {'b': {'corpus': cname, 'operator': op, 'lazy': lazy, 'hex': mutated.hex() if len(mutated) < 6000 else None}}
 
         def parse():
-            opts = mp4.Options(mode='r', lazy_load=lazy)
+            # encrypted corpora are parsed as the server parses them: with the IV size of the track
+            opts = mp4.Options(mode='r', lazy_load=lazy, iv_size=8 if '_enc' in cname or 'senc' in cname else None)
             atoms = mp4.Mp4Atom.load(BufferedReader(None, data=mutated), options=opts, use_wrapper=True)
             if lazy:
                 atoms.toJSON(pure=True)       # touch every lazily loaded box
